@@ -434,7 +434,7 @@ Proof.
   { eapply no_fwd_sub; [|exact B]. intros d Hd. apply all_decls_In. eauto. }
   split; [apply gwf_del_node; exact A|]. split; [|split].
   - eapply no_fwd_sub; [|exact B]. intros d. apply all_decls_del_sub.
-  - rewrite nofwd_app, nofwd_id.
+  - rewrite nofwd_app, (nofwd_id (sort_by_pos (gdecls nd))).
     + rewrite <- C, <- app_assoc. apply Permutation_app_head.
       rewrite (del_node_perm g nd) by (destruct A; assumption). apply Permutation_app_tail. apply sort_by_pos_perm.
     + eapply no_fwd_sub; [|exact Hnf]. intros d Hd. apply sort_by_pos_In. exact Hd.
@@ -491,4 +491,143 @@ Proof.
   - eapply no_fwd_sub; [|apply resolve_no_fwd; exact Hk]. intros d. apply Permutation_in. apply build_perm.
   - simpl. apply build_perm.
   - constructor.
+Qed.
+
+(* ---------- topological order ---------- *)
+Definition emitted (l : list decl) (n : str) : Prop := exists e, In e l /\ dname e = n /\ is_fwd e = false.
+Definition fwd_emitted (l : list decl) (n : str) : Prop := exists e, In e l /\ dname e = n /\ is_fwd e = true.
+Definition dep_ok (D l : list decl) (d : decl) (n : str) : Prop :=
+  emitted l n \/ ((exists t, In t D /\ dname t = dname d /\ is_type t = true) /\ fwd_emitted l n).
+Definition Topo (D acc : list decl) : Prop :=
+  forall l1 d l2, acc = l1 ++ d :: l2 -> is_fwd d = false -> forall n, In n (ddeps d) -> dep_ok D l1 d n.
+Definition resolvable (D : list decl) : Prop :=
+  forall d n, In d D -> In n (ddeps d) -> exists e, In e D /\ dname e = n.
+Definition edges_cover (D : list decl) (g : graph) (acc : list decl) : Prop :=
+  forall nd d n, In nd g -> In d (gdecls nd) -> In n (ddeps d) -> In n (gedges nd) \/ dep_ok D acc d n.
+
+Lemma emitted_app l l' n : emitted l n -> emitted (l ++ l') n.
+Proof. intros [e [H1 H2]]. exists e. split; [apply in_or_app; left; exact H1|exact H2]. Qed.
+Lemma fwd_emitted_app l l' n : fwd_emitted l n -> fwd_emitted (l ++ l') n.
+Proof. intros [e [H1 H2]]. exists e. split; [apply in_or_app; left; exact H1|exact H2]. Qed.
+Lemma dep_ok_app D l l' d n : dep_ok D l d n -> dep_ok D (l ++ l') d n.
+Proof. intros [H|[H1 H2]]; [left; apply emitted_app; exact H|right; split; [exact H1|apply fwd_emitted_app; exact H2]]. Qed.
+
+Lemma Base_in_D D g acc d : Base D g acc -> In d (all_decls g) -> In d D.
+Proof. intros [_ [_ [C _]]] H. eapply Permutation_in; [exact C|]. apply in_or_app. right. exact H. Qed.
+
+Lemma Base_name_cases D g acc n : Base D g acc -> (exists e, In e D /\ dname e = n) ->
+  emitted acc n \/ In n (gnames g).
+Proof.
+  intros [[_ A] [_ [C _]]] [e [He <-]]. apply (Permutation_in _ (Permutation_sym C)) in He.
+  apply in_app_or in He as [He|He].
+  - left. unfold nofwd in He. apply filter_In in He as [H1 H2]. exists e. rewrite negb_true_iff in H2. auto.
+  - right. apply all_decls_In in He as [nd [H1 H2]]. rewrite (A nd e H1 H2). apply in_map. exact H1.
+Qed.
+
+Lemma edges_cover_ru D g acc : resolvable D -> Base D g acc -> edges_cover D g acc ->
+  edges_cover D (remove_unresolvable g) acc.
+Proof.
+  intros HR HB HC nd' d n Hin Hd Hn. unfold remove_unresolvable in Hin. apply in_map_iff in Hin as [nd [<- Hin]].
+  simpl in *. destruct (HC nd d n Hin Hd Hn) as [He|Hok]; [|right; exact Hok].
+  assert (HdD : In d D) by (eapply Base_in_D; [exact HB|apply all_decls_In; eauto]).
+  destruct (Base_name_cases D g acc n HB (HR d n HdD Hn)) as [Hem|Hg].
+  - right. left. exact Hem.
+  - left. apply filter_In. split; [exact He|]. apply has_node_In. exact Hg.
+Qed.
+
+Lemma app_split_cases {A} (acc B l1 l2 : list A) d : acc ++ B = l1 ++ d :: l2 ->
+  (exists l2', acc = l1 ++ d :: l2') \/ (exists b1 b2, l1 = acc ++ b1 /\ B = b1 ++ d :: b2).
+Proof.
+  revert l1. induction acc as [|a acc IH]; intros l1 H; simpl in *.
+  - right. exists l1, l2. auto.
+  - destruct l1 as [|x l1]; simpl in H; inversion H; subst.
+    + left. exists acc. reflexivity.
+    + destruct (IH l1 H2) as [[l2' ->]|[b1 [b2 [-> ->]]]]; [left; exists l2'; reflexivity|right; exists b1, b2; auto].
+Qed.
+
+Lemma has_type_witness D g acc nd d : Base D g acc -> In nd g -> In d (gdecls nd) -> has_type nd = true ->
+  exists t, In t D /\ dname t = dname d /\ is_type t = true.
+Proof.
+  intros HB Hin Hd Ht. unfold has_type in Ht. apply existsb_exists in Ht as [t [H1 H2]].
+  exists t. split; [eapply Base_in_D; [exact HB|apply all_decls_In; eauto]|]. split; [|exact H2].
+  destruct HB as [[_ A] _]. rewrite (A nd t Hin H1), (A nd d Hin Hd). reflexivity.
+Qed.
+
+Definition I_topo (D : list decl) (g : graph) (acc : list decl) : Prop := Topo D acc /\ edges_cover D g acc.
+
+Lemma topo_step_del D g acc nd : resolvable D ->
+  Base D g acc -> I_topo D g acc -> In nd g -> gedges nd = [] ->
+  Base D (remove_unresolvable (del_node g (gname nd))) (acc ++ sort_by_pos (gdecls nd)) ->
+  I_topo D (remove_unresolvable (del_node g (gname nd))) (acc ++ sort_by_pos (gdecls nd)).
+Proof.
+  intros HR HB [HT HC] Hin He HB'. split.
+  - intros l1 d l2 Hsplit Hf n Hn. apply app_split_cases in Hsplit as [[l2' ->]|[b1 [b2 [-> HBs]]]].
+    + eapply HT; eauto.
+    + apply dep_ok_app. assert (Hd : In d (gdecls nd)).
+      { apply sort_by_pos_In. rewrite HBs. apply in_or_app. right. left. reflexivity. }
+      destruct (HC nd d n Hin Hd Hn) as [H|H]; [rewrite He in H; destruct H|exact H].
+  - apply edges_cover_ru; [exact HR| |].
+    + destruct HB' as [A [B [C E]]]. split; [apply gwf_del_node; destruct HB; assumption|].
+      rewrite all_decls_remove_unresolvable in *. auto.
+    + intros nd' d n Hin' Hd Hn. apply del_node_In in Hin' as [Hin' _].
+      destruct (HC nd' d n Hin' Hd Hn) as [H|H]; [left; exact H|right; apply dep_ok_app; exact H].
+Qed.
+
+Lemma topo_step_tf D g acc buf : resolvable D ->
+  Base D g acc -> I_topo D g acc ->
+  Base D (remove_unresolvable (map (tf_map (names_of buf)) g)) (acc ++ sort_by_pos buf) ->
+  Forall (fwd_of_type (all_decls g)) buf ->
+  I_topo D (remove_unresolvable (map (tf_map (names_of buf)) g)) (acc ++ sort_by_pos buf).
+Proof.
+  intros HR HB [HT HC] HB' Hbuf. split.
+  - intros l1 d l2 Hsplit Hf n Hn. apply app_split_cases in Hsplit as [[l2' ->]|[b1 [b2 [-> HBs]]]].
+    + eapply HT; eauto.
+    + exfalso. assert (Hd : In d buf).
+      { apply sort_by_pos_In. rewrite HBs. apply in_or_app. right. left. reflexivity. }
+      rewrite Forall_forall in Hbuf. destruct (Hbuf d Hd) as [t [_ [_ ->]]]. discriminate.
+  - apply edges_cover_ru; [exact HR| |].
+    + destruct HB' as [A [B [C E]]]. split; [apply shape_gwf; [apply tf_map_shape|destruct HB; assumption]|].
+      rewrite all_decls_remove_unresolvable in *. auto.
+    + intros nd' d n Hin' Hd Hn. apply in_map_iff in Hin' as [nd [<- Hin]].
+      assert (Hd' : In d (gdecls nd)).
+      { unfold tf_map in Hd. destruct (has_type nd); exact Hd. }
+      destruct (HC nd d n Hin Hd' Hn) as [H|H]; [|right; apply dep_ok_app; exact H].
+      unfold tf_map. destruct (has_type nd) eqn:Et; [|left; exact H]. simpl.
+      destruct (str_in n (names_of buf)) eqn:Es.
+      * right. right. split; [eapply has_type_witness; eauto|].
+        apply str_in_In in Es. unfold names_of in Es. apply in_map_iff in Es as [e [E1 E2]].
+        exists e. split; [apply in_or_app; right; apply sort_by_pos_In; exact E2|]. split; [exact E1|].
+        rewrite Forall_forall in Hbuf. destruct (Hbuf e E2) as [t [_ [_ ->]]]. reflexivity.
+      * left. apply filter_In. split; [exact H|]. rewrite Es. reflexivity.
+Qed.
+
+Lemma resolve_resolvable ds : resolvable (resolve ds).
+Proof.
+  intros d n Hd Hn. unfold resolve in Hd. apply in_map_iff in Hd as [x [<- Hx]]. simpl in Hn.
+  apply filter_In in Hn as [_ Hn]. apply str_in_In in Hn. unfold names_of in Hn. apply in_map_iff in Hn as [e [E1 E2]].
+  exists (set_deps e (filter (fun n => str_in n (names_of ds)) (ddeps e))). split; [|exact E1].
+  unfold resolve. apply in_map_iff. exists e. auto.
+Qed.
+
+Lemma edges_cover_init ds : edges_cover (resolve ds) (build ds) [].
+Proof.
+  intros nd d n Hin Hd Hn. left. rewrite (build_edges ds nd Hin). apply sort_unique_In.
+  apply in_flat_map. exists d. auto.
+Qed.
+
+Lemma topological ds out : Forall (fun d => dkind d <> KTypeFwd) ds -> sort ds = Ok out -> Topo (resolve ds) out.
+Proof.
+  intros Hk H. unfold sort, sort_graph in H.
+  pose proof (resolve_resolvable ds) as HR.
+  assert (HB0 : Base (resolve ds) (build ds) []).
+  { split; [apply build_gwf|]. split; [|split; [apply build_perm|constructor]].
+    eapply no_fwd_sub; [|apply resolve_no_fwd; exact Hk]. intros d. apply Permutation_in. apply build_perm. }
+  apply (sort_loop_inv (resolve ds) (I_topo (resolve ds))) in H.
+  - destruct H as [_ [HT _]]. exact HT.
+  - intros. apply topo_step_del; auto.
+  - intros. apply topo_step_tf; auto.
+  - apply Base_init. exact Hk.
+  - split.
+    + intros l1 d l2 Hs. destruct l1; discriminate.
+    + apply edges_cover_ru; [exact HR|exact HB0|apply edges_cover_init].
 Qed.
